@@ -448,8 +448,15 @@ class DemoStorage(ConflictResolvingStorage):
             self._issued_oids.difference_update(self._stored_oids)
             self._stored_oids = set()
             self._transaction = None
-            tid = self.changes.tpc_finish(transaction, func)
-            self._commit_lock.release()
+            try:
+                tid = self.changes.tpc_finish(transaction, func)
+            except:  # noqa: E722 do not use bare 'except'
+                # We have forgotten the transaction, so our tpc_abort will
+                # ignore it: let the changes storage let go of it too.
+                self.changes.tpc_abort(transaction)
+                raise
+            finally:
+                self._commit_lock.release()
         return tid
 
 
